@@ -111,6 +111,25 @@ var c20Cmds = []string{
 // spellings of the daemon invocation (what `rsync -e ssh host::module` sends)
 var c20DaemonCmds = []string{"rsync --server --daemon .", "rsync --server --daemon", "'rsync' --server --daemon ."}
 
+// command lines that contain --server and --daemon, but not as the plain
+// daemon invocation: --daemon after the paths, or as the VALUE of another
+// option. Whether they are refused or served as a daemon is the
+// implementation's choice; what they must not do is run a plain server on an
+// outside path. The check plays the command-mode client behind them.
+var c20AmbiguousCmds = []string{
+	"rsync --server . %S/planted_dir/ --daemon",
+	"rsync --server -r . %S/planted_dir/ --daemon",
+	"rsync --server --sender -r . %S/secret_dir/ --daemon",
+	"rsync --server --sender -r --exclude --daemon . %S/secret_dir/",
+	"rsync --server --sender -r --filter --daemon . %S/secret_dir/",
+	"rsync --server --sender -r --include --daemon . %S/secret_dir/",
+	"rsync --server --sender -r -e --daemon . %S/secret_dir/",
+	"rsync --server -r --exclude --daemon . %S/planted_dir/",
+	"rsync --server --sender -r --exclude=--daemon . %S/secret_dir/",
+	"rsync --server --sender -r . %S/secret_dir/ -- --daemon",
+	"rsync --daemon --server --sender -r . %S/secret_dir/",
+}
+
 // daemon invocations that try to bring their own configuration / module map
 var c20EvilDaemonCmds = []string{
 	"rsync --server --daemon --gokr.config=%S/conf/evil.toml .",
@@ -170,6 +189,8 @@ func (c20) Generate(seed uint64, tier string, index int) any {
 				sc.Sessions = append(sc.Sessions, C20Session{Op: "channel", Chan: []string{"direct-tcpip", "x11", "forwarded-tcpip", "auth-agent@openssh.com", "tun@openssh.com"}[g.R.Intn(5)]})
 			case 3:
 				sc.Sessions = append(sc.Sessions, C20Session{Op: "env-exec", Cmd: c20Cmds[g.R.Intn(len(c20Cmds))]})
+			case 4:
+				sc.Sessions = append(sc.Sessions, C20Session{Op: "exec-lenient", Cmd: c20AmbiguousCmds[g.R.Intn(len(c20AmbiguousCmds))]})
 			default:
 				sc.Sessions = append(sc.Sessions, C20Session{Op: "exec", Cmd: c20Cmds[g.R.Intn(len(c20Cmds))]})
 			}
@@ -470,6 +491,11 @@ func (c20) Run(t *testing.T, scenario any, job *Job, res *Result) {
 				return
 			}
 			res.Probe("requests_refused", 1)
+		case "exec-lenient":
+			// refusal is not demanded (the line may count as a daemon
+			// invocation); exposure is judged by the secret scan above and the
+			// ring check below
+			res.Probe("ambiguous_commands", 1)
 		case "exec", "env-exec":
 			refused := !r.execOK || r.exit > 0
 			if !refused {
@@ -634,7 +660,7 @@ func c20Client(conn net.Conn, signer ssh.Signer, s C20Session, subst func(string
 	case "env-exec":
 		ch.SendRequest("env", true, ssh.Marshal(&envMsg{"RSYNC_RSH", subst("%C")}))
 		r.execOK, r.reqErr = ch.SendRequest("exec", true, ssh.Marshal(&execMsg{subst(s.Cmd)}))
-	case "exec":
+	case "exec", "exec-lenient":
 		r.execOK, r.reqErr = ch.SendRequest("exec", true, ssh.Marshal(&execMsg{subst(s.Cmd)}))
 	case "daemon":
 		r.execOK, r.reqErr = ch.SendRequest("exec", true, ssh.Marshal(&execMsg{subst(s.Cmd)}))
@@ -665,7 +691,7 @@ func c20Client(conn net.Conn, signer ssh.Signer, s C20Session, subst func(string
 		}
 	}
 	engaged := false
-	if (s.Op == "exec" || s.Op == "env-exec") && r.execOK && strings.Contains(s.Cmd, "--server") && !strings.Contains(s.Cmd, "%C") {
+	if (s.Op == "exec" || s.Op == "env-exec" || s.Op == "exec-lenient") && r.execOK && strings.Contains(s.Cmd, "--server") && !strings.Contains(s.Cmd, "%C") {
 		// whatever the command line looks like: if a command-mode server was
 		// started behind it, play the matching client for real, so that data
 		// would actually flow out of (or into) the outside directory
